@@ -87,7 +87,9 @@ func (f *Progv) Call(s *slip.Scope, args slip.List, depth int) (result slip.Obje
 	}
 	d2 := depth + 1
 	for i := 2; i < len(args); i++ {
-		result = slip.EvalArg(ns, args, i, d2)
+		if result = slip.EvalArg(ns, args, i, d2); slip.IsExit(result) {
+			break
+		}
 	}
 	return
 }
